@@ -89,7 +89,7 @@ Rows == {
 }
 RowNames == {r.name : r \in Rows}
 Row(n) == CHOOSE r \in Rows : r.name = n
-PClasses == {"low", "mid", "high", "odd", "huge"}      \* value classes per task; the harness maps (row, class) to concrete parameter values ("huge": byte parameters above 1 MiB)
+PClasses == {"low", "mid", "high", "odd", "huge"}      \* value classes per task; the harness maps (row, class) to concrete parameter values ("huge": byte parameters above 1 MiB; the generator's long batches use one more, "giant": 8 MiB)
 KeyClasses == {"zero", "nonzero", "wrap"}      \* "wrap": a non-zero key whose IV is a counter value a few blocks before 2^64 - 1 in its low half (the carry goes into the high half inside the first task body)
 MaxBatch == 3
 
